@@ -307,6 +307,15 @@ func runC17(w *worker) func(c c17Case) *Failure {
 		if f := legacy(3); f != nil {
 			return f
 		}
+		// another value of the same type, handed over by value (legacy calls were given src, its address
+		// and its type: whatever they did with them, src is the caller's and must come out unchanged)
+		other := reflect.New(b.Type).Elem().Interface()
+		if _, f := fSize(other); f != nil {
+			return f
+		}
+		if _, f := encodeExact(other); f != nil {
+			return f
+		}
 		// and once more after the trailing legacy calls: same type, same value
 		out2, f := encodeExact(src.Interface())
 		if f != nil {
